@@ -276,7 +276,8 @@ def derives_from_root(t) -> bool:
     if t[0] in ('sub', 'attr'):
         return derives_from_root(t[1])
     if t[0] == 'call':
-        return any(derives_from_root(a) for a in t[2:])
+        # the result of a method of (a part of) the object — x.values(), x.items() — is a view of it
+        return any(derives_from_root(a) for a in t[2:]) or (isinstance(t[1], tuple) and derives_from_root(t[1]))
     if t[0] == 'phi':
         return any(derives_from_root(a) for a in t[1:])
     if t[0] == 'binop':
